@@ -8,6 +8,7 @@ Helper lemmas for C15, collected:
   ModulesScope  scope discipline: calls restore every scope; effects of the declaring primitives
   ModulesEnv    what the loader leaves in every module's scope (imports, own exports)
   ModulesView   reading those scopes: which names resolve to what
+  ModulesFile   names ↔ files: plain path components, name ↦ path injective (repaired finder), every FILE's body at most once
 -/
 import ZnVerif.Proofs.ModulesDfs
 import ZnVerif.Proofs.ModulesBasic
@@ -17,3 +18,4 @@ import ZnVerif.Proofs.ModulesFuel
 import ZnVerif.Proofs.ModulesScope
 import ZnVerif.Proofs.ModulesEnv
 import ZnVerif.Proofs.ModulesView
+import ZnVerif.Proofs.ModulesFile
